@@ -267,6 +267,8 @@ def records_plain(case):
     r1 = [(rec_name(r, 1), r[3], r[4]) for r in case["records"]]
     r2 = [(rec_name(r, 2), r[5], r[6]) for r in case["records"]] if case["paired"] else None
     enc = fmt.fastq_bytes if fastq else fmt.fasta_bytes
+    if case["input"].get("bam"):
+        enc = fmt.bam_bytes
     return enc(r1), (enc(r2) if r2 is not None else None)
 
 
@@ -283,7 +285,7 @@ def interleave_plain(case):
 
 
 def gen_input(rng, paired, fastq, containers=("",), p_interleaved=0.3, p_multimember=0.3, p_interleaved_fasta=0.0,
-              p_comments_two_files=0.0, p_stdin=0.0):
+              p_comments_two_files=0.0, p_stdin=0.0, p_bam=0.0):
     ext = rng.choice([".fastq", ".fq"] if fastq else [".fasta", ".fa"])
     if rng.random() < 0.1:
         ext = ""  # no extension: xopen/dnaio must detect by content
@@ -318,10 +320,13 @@ def gen_input(rng, paired, fastq, containers=("",), p_interleaved=0.3, p_multime
     out = {"layout": layout, "ext": ext, "containers": conts, "members": members, "comments": comments}
     if text:
         out["text"] = text
+    if fastq and not paired and rng.random() < p_bam:
+        # unaligned BAM (the instrument's or samtools' output): gzip members around the BAM stream
+        out = {"layout": "single", "ext": ".bam", "containers": [""], "members": [rng.randint(1, 4)], "comments": 0, "bam": True}
     if nfiles == 1 and rng.random() < p_stdin:
         # 'cutadapt ... -': the file is fed to standard input (a pipe when it fits into one)
         out["stdin"] = rng.choice(["pipe", "pipe", "file"])
-        if conts[0] == ".gz":
+        if conts[0] == ".gz" or out.get("bam"):
             # gzip data on a *pipe* is rejected ("File or stream is not seekable": detect_file_format
             # seeks in the gzip reader) with one core and with several alike - outside the claimed properties
             out["stdin"] = "file"
@@ -382,6 +387,9 @@ def materialize(case, rng_for_members=None):
         if ncomm:
             plain = b"".join(b"# comment line %d\n" % k for k in range(ncomm)) + plain
         plain = style_plain(case, plain)
+        if inp.get("bam"):
+            files[p] = fmt.compress(".gz", plain, rng=random.Random(case.get("member_seed", 0) * 31 + i), members=inp["members"][i])
+            continue
         r = random.Random(case.get("member_seed", 0) * 31 + i)
         files[p] = fmt.compress(inp["containers"][i], plain, rng=r, members=inp["members"][i])
     for p, text in (case.get("aux_files") or {}).items():
@@ -466,6 +474,7 @@ def default_profile():
         p_devnull=0.0,
         p_case_name=0.0,
         same_name_without_demux=False,  # (C20) same-named adapters also without {name} in the output
+        p_bam=0.0,  # (C04, C06, C12) single-end input as unaligned BAM
         p_nonascii_name=0.0,  # (C06) an adapter name with a non-ASCII letter (it reaches the info file and the reports)
         p_giant=0.0,  # more than 65536 short reads
         p_qbase64=0.0,  # (C04, C06, C12: no per-read model of the quality options there)
@@ -830,7 +839,7 @@ def gen_case(rng, profile=None):
     elif r_ < P["p_quiet"] + P["p_debug"]:
         outs.append(["--debug"])
     inp = gen_input(rng, paired, fastq, P["in_containers"], p_interleaved_fasta=P["p_interleaved_fasta"],
-                    p_comments_two_files=P["p_comments_two_files"], p_stdin=P["p_stdin"])
+                    p_comments_two_files=P["p_comments_two_files"], p_stdin=P["p_stdin"], p_bam=P["p_bam"])
     if inp.get("stdin") == "pipe" and records and not big and rng.random() < 0.12:
         # a long read arriving through a pipe (its record is larger than the pipe's 64 KiB capacity)
         r_ = rng.choice(records)
@@ -947,6 +956,8 @@ def record_sizes(case):
     w = text.get("wrap") if not fastq else None
 
     def size(name, s):
+        if case["input"].get("bam"):
+            return fmt.bam_record_size(name, s)
         if fastq:
             return len(name) + 1 + len(s) + 1 + len(s) + 4 * eol
         lines = max(1, -(-len(s) // w)) if w else 1
